@@ -2,7 +2,7 @@
 //! `lightmotif-py` crate is registered as `lightmotif.lib` (exactly like lightmotif-py/lightmotif/tests/unittest.rs),
 //! so that the Python bindings of /repo's current working tree are exercised without building a wheel.
 //!
-//!   lmpyconform record <C06|C11|C12|C13|C14|C17|C18> <out.ndjson> [--seed N] [--thorough]
+//!   lmpyconform record <C06|C09|C10|C11|C12|C13|C14|C17|C18> <out.ndjson> [--seed N] [--thorough]
 use pyo3::prelude::*;
 use pyo3::types::{PyDict, PyList, PyModule};
 
@@ -61,7 +61,7 @@ fn main() {
     std::panic::set_hook(Box::new(|_| {}));
     let args: Vec<String> = std::env::args().collect();
     if args.len() < 4 || args[1] != "record" {
-        eprintln!("usage: lmpyconform record <C06|C11|C12|C13|C14|C17|C18> <out.ndjson> [--seed N] [--thorough]");
+        eprintln!("usage: lmpyconform record <C06|C09|C10|C11|C12|C13|C14|C17|C18> <out.ndjson> [--seed N] [--thorough]");
         std::process::exit(2);
     }
     let mut seed = 1u64;
